@@ -340,6 +340,9 @@ func DecodeBoxLazyMdat(startPos uint64, r io.ReadSeeker) (Box, error) {
 	d, ok := decoders[h.Name]
 
 	remainingLength := int64(h.Size) - int64(h.Hdrlen)
+	if remainingLength < 0 { // Size >= 2^63 would make the mdat skip seek backwards
+		return nil, fmt.Errorf("decode box %q: size %d too big", h.Name, h.Size)
+	}
 
 	if !ok {
 		b, err = DecodeUnknown(h, startPos, r)
